@@ -365,15 +365,22 @@ def verify(contract, tier, check, budget=None, prefix=None):
                     if oc_[0] != "return":
                         nxt.append((s_, oc_))
                         continue
-                    ex2 = Executor(fn2, module, contract, REGISTRY)
-                    ex2.entry_ns = a
-                    ex2.obligations = ex.obligations
-                    ex2.counters = ex.counters
                     params2 = [p.arg for p in fn2.args.args]
-                    s_.env = {"self": values["self"]}
-                    for p in params2[1:]:
-                        s_.env[p] = None
-                    nxt += ex2.run(s_)
+                    variants = [(s_, [None] * (len(params2) - 1))]
+                    if qual2.endswith(".__exit__") and len(params2) == 4:
+                        # the body may also be left through an exception - of any class: __exit__(type, value, traceback) with
+                        # opaque, non-None arguments whose isinstance / issubclass tests go both ways
+                        from .values import OpaqueV
+                        variants.append((s_.clone(), [OpaqueV("exc_type"), OpaqueV("exc_value"), OpaqueV("exc_tb")]))
+                    for sv_, argv in variants:
+                        ex2 = Executor(fn2, module, contract, REGISTRY)
+                        ex2.entry_ns = a
+                        ex2.obligations = ex.obligations
+                        ex2.counters = ex.counters
+                        sv_.env = {"self": values["self"]}
+                        for p, v_ in zip(params2[1:], argv):
+                            sv_.env[p] = v_
+                        nxt += ex2.run(sv_)
                 outs = nxt
         except Unsupported as u:
             check.add_obligation(Obligation(f"{prop}.{contract.qualname}[{shape.name}].unsupported", contract.key,
